@@ -87,6 +87,37 @@ def main():
     if not ok:
         chk.violation('harness does not build against /repo: ' + msg[-1500:], {'log_tail': msg[-3000:]}, found_input=False)
         finish(chk)
+    # the translator's reading of the sources against the constants of the compiled code
+    try:
+        cr = wvlib.run_cases(binp, ['consts'], prop + '-consts', shards=1)[0] or ''
+        got = dict(x.split('=', 1) for x in cr.split(';') if '=' in x)
+        tc = json.load(open(f'{VERIF}/inventories/consts.json'))
+        core = tc['Consts']; ev = tc['EvalConsts']; tx = tc['TextConsts']
+        exp = {'rank_masks': ','.join(map(str, core['rank_masks'])), 'file_masks': ','.join(map(str, core['file_masks'])),
+               'castle_path': ','.join(map(str, core['castle_path'])), 'castle_check': ','.join(map(str, core['castle_check'])),
+               'king_origins': ','.join(map(str, core['king_origins'])), 'castle_dests': ','.join(map(str, core['castle_dests'])),
+               'default_fen': tx['default_fen']}
+        diffs = {k: [exp[k], got.get(k)] for k in exp if got.get(k) != exp[k]}
+        wg = [float(x) for x in got.get('worths', '').split(',') if x]
+        we = [float(x) for x in ev['worths']]
+        if wg != we:
+            diffs['worths'] = [we, wg]
+        chk.oblig('translator: constants read from the sources equal the constants of the compiled code', not diffs, json.dumps(diffs)[:400])
+        if diffs:
+            chk.violation('the translator mis-reads a constant (tie broken): %s' % json.dumps(diffs)[:400], {'kind': 'translator', 'diffs': diffs}, found_input=False)
+    except Exception as e:
+        chk.oblig('translator: constants read from the sources equal the constants of the compiled code', False, repr(e))
+        chk.violation('constant comparison failed: %r' % e, {'kind': 'translator'}, found_input=False)
+    # source-shape inventories the model's assumptions rest on
+    for invname, props in (('nondeterminism', ('C19',)), ('board_mutators', ('C10',))):
+        if prop in props:
+            inv = json.load(open(f'{VERIF}/inventories/{invname}.json'))
+            ep = f'{VERIF}/tools/{invname}_expected.json'
+            expi = json.load(open(ep)) if os.path.exists(ep) else None
+            same = inv == expi
+            chk.oblig('source-shape inventory %s equals the one the model was written against' % invname, same, '' if same else json.dumps({'expected': expi, 'now': inv})[:500])
+            if not same:
+                chk.violation('source shape changed (%s): the model no longer covers the code: %s' % (invname, json.dumps({'expected': expi, 'now': inv})[:400]), {'kind': 'source-shape', 'inventory': invname, 'expected': expi, 'now': inv}, found_input=False)
     fn = getattr(streams, 'check_' + prop, None)
     if fn is None:
         chk.notes.append('no correspondence streams registered for ' + prop)
